@@ -38,7 +38,9 @@ func init() {
 }
 
 func c12Doc(g *xgen.G) *xdoc.Doc {
-	switch g.Intn(5) {
+	switch g.Intn(6) {
+	case 5:
+		return g.NameLikeTree(xgen.Names)
 	case 4:
 		return g.DeepTree()
 	case 0:
